@@ -49,9 +49,9 @@ type SliceV struct {
 	Elem          types.Type
 }
 type IfaceV struct {
-	Lib    bool  // error created by an external library call: never one of the repository's sentinel errors
+	Lib    bool   // error created by an external library call: never one of the repository's sentinel errors
 	Origin string // module of the external library that made the error (it is never a sentinel of ANOTHER library)
-	ID     *Term // Int; 0 == nil interface
+	ID     *Term  // Int; 0 == nil interface
 	Dyn    types.Type
 	Val    Value
 	JoinOf []*IfaceV
